@@ -33,7 +33,14 @@ def regenerate():
         tr = importlib.import_module("translate")
     except ModuleNotFoundError:
         return out
+    produced = set()
     for name, content, notes in tr.generate_all(REPO):
         changed = write_if_changed(os.path.join(GEN_DIR, name), content)
         out[name] = {"changed": changed, "notes": notes}
+        produced.add(name)
+    # a fragment that crashed in an earlier run leaves a Broken_*.lean behind: drop it once the fragment works again
+    if os.path.isdir(GEN_DIR):
+        for fn in os.listdir(GEN_DIR):
+            if fn.startswith("Broken_") and fn not in produced:
+                os.remove(os.path.join(GEN_DIR, fn))
     return out
